@@ -260,6 +260,14 @@ func c06Gen() *rapid.Generator[c06Case] {
 				}
 				f = append(f, r)
 			}
+			if rapid.Bool().Draw(t, "hiddenFirst") {
+				for i, r := range f {
+					if strings.HasPrefix(r.Name, ".") {
+						f[0], f[i] = f[i], f[0]
+						break
+					}
+				}
+			}
 		}
 		c := c06Case{Forest: f, Entry: entry, Exts: genExts(f.Names()).Draw(t, "exts")}
 		c.HasExts = rapid.Bool().Draw(t, "hasExts")
@@ -275,7 +283,11 @@ func c06Gen() *rapid.Generator[c06Case] {
 		switch rapid.IntRange(0, 5).Draw(t, "scenario") {
 		case 0:
 			if c.State != "missing" {
-				n := rapid.IntRange(1, len(f)).Draw(t, "npre")
+				// mostly one or two pre-existing roots (which one matters), sometimes many
+				n := rapid.SampledFrom([]int{1, 1, 1, 2, 2, len(f)}).Draw(t, "npre")
+				if n > len(f) {
+					n = len(f)
+				}
 				for i := 0; i < n; i++ {
 					c.PreRoot = append(c.PreRoot, c06Pre{Root: rapid.IntRange(0, len(f)-1).Draw(t, "preRoot"), Kind: rapid.SampledFrom([]string{"d", "f"}).Draw(t, "preKind")})
 				}
